@@ -64,6 +64,8 @@ ADV = {"g": ["g", "g1", "g_", "gg", "g1a", "g-1", "g.1", "G2", "g11"], "r": ["r"
 def layout_form(prefix, tsuf, rsuf, style, target_first, ref_kind, with_cells=True):
     """common prefix containers, then two branches: target chain ending in question tgt, referrer chain ending in the referrer."""
     names = {"g": iter((ADV if style == "adv" else PLAIN)["g"]), "r": iter((ADV if style == "adv" else PLAIN)["r"])}
+    if style == "uni":
+        names = {"g": iter(["gr\u00fcppe", "g\u0308b", "g\u00b7c", "gd", "ge", "gf", "gg", "gh", "gi"]), "r": iter(["r\u00e9p", "re\u0301b", "r\u00b7c", "rd", "re", "rf", "rg", "rh", "ri"])}
     extras = []
 
     def sec(k):
@@ -77,7 +79,8 @@ def layout_form(prefix, tsuf, rsuf, style, target_first, ref_kind, with_cells=Tr
         cur.append(s)
         cur = s.children
     base = cur
-    tname = {"plain": "tgt", "adv": "t", "case": "Tgt"}[style]
+    # "uni": a valid XML name that is not ASCII: a decomposed letter (base + combining mark), a middle dot, a composed letter
+    tname = {"plain": "tgt", "adv": "t", "case": "Tgt", "uni": "re\u0301ponse\u00b7\u00e9t\u00e9"}[style]
     tq = Row("q", "integer", tname, {"label": "target"})
     tb = tq
     for k in reversed(tsuf):
@@ -90,7 +93,7 @@ def layout_form(prefix, tsuf, rsuf, style, target_first, ref_kind, with_cells=Tr
     if ref_kind == "question":
         cells = {"label": f"lab {R} x", "hint": f"{R} hint", "relevant": f"{R} > 1", "constraint": f". > {R} and {R} != 5", "required": f"{R} = 2",
                  "read_only": f"{R} = 3", "constraint_message": f"msg {R}", "default": f"{R} + 1", "choice_filter": f"name != {R} and cf = {R}",
-                 "parameters": "randomize=true seed=" + {"plain": f"{R}", "adv": f"{R}*2", "case": f"{R}+{R}"}[style], "instance::xattr": f"{R}", "body::kb:flag": f"{R}", "bind::odk:x": f"{R} * 2"}
+                 "parameters": "randomize=true seed=" + {"plain": f"{R}", "adv": f"{R}*2", "case": f"{R}+{R}", "uni": f"{R}"}[style], "instance::xattr": f"{R}", "body::kb:flag": f"{R}", "bind::odk:x": f"{R} * 2"}
         rq = Row("q", f"select_one {lst}", "refq", cells)
         # an external select (external_choices sheet) next to it: its filter lives in input/@query and needs current() like any predicate
         extras = [Row("q", "select_one_external ext", "refx", {"label": "x", "choice_filter": f"state={R} and cf = {R}"})]
@@ -787,7 +790,7 @@ def run_shard(ctx):
     for prefix in ch:
         for tsuf in ch:
             for rsuf in ch:
-                for style in ("plain", "adv", "case"):
+                for style in ("plain", "adv", "case", "uni"):
                     for tf in (True, False):
                         for rk in ("question", "calc", "group", "repeat", "selrep", "selrep-nofilter"):
                             n += 1
